@@ -338,6 +338,10 @@ impl<R: Rng, M: QmcManager> Qmc<R, M> {
 
         other.manager = m;
         other.state = s;
+        // Both samplers must sweep over the longer of the two operator strings.
+        let cutoff = max(self.cutoff, other.cutoff);
+        self.set_cutoff(cutoff);
+        other.set_cutoff(cutoff);
     }
 
     /// Clone the state at p=0.
